@@ -780,3 +780,161 @@ Proof.
   - unfold sync. cbn. repeat split; try lia; auto.
   - eexists. eexists. vm_compute. reflexivity.
 Qed.
+
+(* ---- socket timeouts and a pending re-key ------------------------------------------- *)
+Definition ne_t (s : list sev) : Prop :=
+  Forall (fun e => match e with SData c => c <> [] | STimeout => True end) s.
+
+Lemma read_all_t_spec : forall sock n out ck nr, ne_t sock ->
+  match read_all_t n out ck nr sock with
+  | RAok x s' => exists y, x = out ++ y /\ ftake n (sdata sock) = Some (y, sdata s') /\ ne_t s'
+  | RAeof => ftake n (sdata sock) = None
+  | RArekey s' => ck = true /\ nr = true /\ out = [] /\ sdata s' = sdata sock /\ ne_t s'
+  end.
+Proof.
+  induction sock as [|e rest IH]; intros n out ck nr Hne; cbn [read_all_t].
+  - destruct (n <=? 0) eqn:E.
+    + exists []. rewrite app_nil_r. unfold ftake. rewrite E. auto.
+    + cbn [sdata]. apply ftake_short; [lia|rewrite zlen_nil; lia].
+  - destruct (n <=? 0) eqn:E.
+    + exists []. rewrite app_nil_r. unfold ftake. rewrite E. auto.
+    + inversion Hne as [|? ? Hc Hrest]; subst. destruct e as [c|].
+      * destruct c as [|c0 c']; [congruence|]. set (c := c0 :: c') in *. cbn [sdata].
+        destruct (zlen c <=? n) eqn:E2.
+        -- specialize (IH (n - zlen c) (out ++ c) ck nr Hrest).
+           destruct (read_all_t (n - zlen c) (out ++ c) ck nr rest) as [x s'| |s'].
+           ++ destruct IH as (y & -> & Ht & Hn). exists (c ++ y). rewrite app_assoc. split; [reflexivity|].
+              split; [|exact Hn]. apply ftake_inv in Ht as [Hc1 Hc2]. rewrite Hc1, app_assoc.
+              apply ftake_exact. rewrite zlen_app. lia.
+           ++ unfold ftake in *. rewrite E. rewrite zlen_app.
+              destruct (n - zlen c <=? 0) eqn:E3; [discriminate|].
+              destruct (zlen (sdata rest) <? n - zlen c) eqn:E4; [|discriminate].
+              destruct (zlen c + zlen (sdata rest) <? n) eqn:E5; [reflexivity|lia].
+           ++ destruct IH as (_ & _ & Hout & _). destruct out; discriminate.
+        -- exists (firstn (Z.to_nat n) c). split; [reflexivity|]. split.
+           ++ cbn [sdata]. rewrite <- (firstn_skipn (Z.to_nat n) c) at 1. rewrite <- app_assoc.
+              apply ftake_exact. unfold zlen in *. rewrite firstn_length. lia.
+           ++ constructor; [|exact Hrest]. intros Hs.
+              assert (L : length (skipn (Z.to_nat n) c) = 0%nat) by now rewrite Hs.
+              rewrite skipn_length in L. unfold zlen in *. lia.
+      * cbn [sdata]. destruct (ck && Nat.eqb (length out) 0 && nr) eqn:G.
+        -- apply andb_true_iff in G as [G ->]. apply andb_true_iff in G as [-> G].
+           apply Nat.eqb_eq in G. destruct out; [|discriminate]. auto.
+        -- apply IH, Hrest.
+Qed.
+
+Lemma ttake_spec : forall n s, ne_t s ->
+  match ttake n s with
+  | Some (x, s') => ftake n (sdata s) = Some (x, sdata s') /\ ne_t s'
+  | None => ftake n (sdata s) = None
+  end.
+Proof.
+  intros n s H. unfold ttake. pose proof (read_all_t_spec s n [] false false H) as R.
+  destruct (read_all_t n [] false false s) as [x s'| |s'].
+  - destruct R as (y & -> & Ht & Hn). auto.
+  - exact R.
+  - destruct R as (R & _). discriminate.
+Qed.
+
+Section Timeouts.
+Variable P : prims.
+Notation FS := (list Z).
+
+Lemma read_message_t_spec nr r s : ne_t s ->
+  match read_message_t P nr r s with
+  | TRekey s' => sdata s' = sdata s /\ ne_t s'          (* nothing was consumed *)
+  | TOther x => srel (list sev) sdata ne_t x (read_message P FS ftake r (sdata s))
+  end.
+Proof.
+  intros H. unfold read_message_t. pose proof (read_all_t_spec s (p_bs r) [] true nr H) as R.
+  destruct (read_all_t (p_bs r) [] true nr s) as [h s'| |s'].
+  - destruct R as (y & -> & Ht & Hn). cbn [app]. unfold read_message, rbind, rtake. rewrite Ht.
+    apply (sim_read_body P (list sev) ttake sdata ne_t ttake_spec r y s' Hn).
+  - unfold read_message, rbind, rtake. rewrite R. reflexivity.
+  - destruct R as (_ & _ & _ & E & Hn). auto.
+Qed.
+
+Lemma read_many_fuel_mono : forall f r s ps evs fi rf sf,
+  read_many P FS ftake f r s = (ps, evs, fi, rf, sf) -> fi <> FFuel ->
+  forall f2, (f <= f2)%nat -> read_many P FS ftake f2 r s = (ps, evs, fi, rf, sf).
+Proof.
+  induction f as [|f IH]; intros r s ps evs fi rf sf H Hfi f2 Hle.
+  - cbn in H. injection H as _ _ <- _ _. congruence.
+  - destruct f2 as [|f2]; [lia|]. cbn [read_many] in *.
+    destruct (read_message P FS ftake r s) as [| e | [[p ev] r'] s']; try exact H.
+    destruct (read_many P FS ftake f r' s') as [[[[ps1 evs1] fi1] rf1] sf1] eqn:E.
+    injection H as <- <- <- <- <-.
+    rewrite (IH r' s' ps1 evs1 fi1 rf1 sf1 E Hfi f2 ltac:(lia)). reflexivity.
+Qed.
+
+(* timeouts at any positions, with or without a pending re-key, never lose, duplicate or reorder
+   bytes: the run loop delivers exactly what reading the plain byte stream delivers *)
+Theorem timeouts_lossless : forall fuel nr r s, ne_t s ->
+  let '(ps, evs, k, fi, rf, sf) := read_many_t P nr fuel r s in
+  fi <> FFuel -> forall fuel2, (fuel <= fuel2)%nat ->
+  read_many P FS ftake fuel2 r (sdata s) = (ps, evs, fi, rf, sdata sf).
+Proof.
+  induction fuel as [|f IH]; intros nr r s H; cbn [read_many_t].
+  - intros Hfi. congruence.
+  - pose proof (read_message_t_spec nr r s H) as R.
+    destruct (read_message_t P nr r s) as [s'|x].
+    + destruct R as [E Hn]. specialize (IH nr r s' Hn).
+      destruct (read_many_t P nr f r s') as [[[[[ps evs] k] fi] rf] sf].
+      intros Hfi fuel2 Hle. rewrite <- E. apply IH; [exact Hfi|lia].
+    + unfold srel in R. destruct x as [| e | [[p ev] r'] s'].
+      * intros _ fuel2 Hle. destruct fuel2 as [|f2]; [lia|]. cbn [read_many]. now rewrite R.
+      * intros _ fuel2 Hle. destruct fuel2 as [|f2]; [lia|]. cbn [read_many]. now rewrite R.
+      * destruct R as [R Hn]. specialize (IH nr r' s' Hn).
+        destruct (read_many_t P nr f r' s') as [[[[[ps evs] k] fi] rf] sf].
+        intros Hfi fuel2 Hle. destruct fuel2 as [|f2]; [lia|]. cbn [read_many]. rewrite R.
+        rewrite (IH Hfi f2 ltac:(lia)). reflexivity.
+Qed.
+End Timeouts.
+
+(* ---- AEAD nonces ---------------------------------------------------------------------- *)
+Definition iv_ok (iv : list Z) : Prop := bytes_ok iv = true /\ (4 <= length iv)%nat.
+
+Lemma inc_iv_ctr iv iv' : iv_ok iv -> inc_iv iv = Ok iv' ->
+  be_decode (skipn 4 iv') = be_decode (skipn 4 iv) + 1 /\ iv_ok iv' /\ be_decode (skipn 4 iv') < 2 ^ 64.
+Proof.
+  intros [Hb Hl] H. unfold inc_iv in H.
+  destruct (be_decode (skipn 4 iv) + 1 <? 2 ^ 64) eqn:E; [|discriminate]. injection H as <-.
+  pose proof (be_decode_range (skipn 4 iv) (bytes_ok_skipn 4 iv Hb)) as R.
+  assert (L4 : length (firstn 4 iv) = 4%nat) by (rewrite firstn_length; lia).
+  rewrite skipn_app_exact by (now rewrite L4).
+  assert (D : be_decode (be_encode 8 (be_decode (skipn 4 iv) + 1)) = be_decode (skipn 4 iv) + 1).
+  { apply be_decode_encode. change (256 ^ Z.of_nat 8) with (2 ^ 64). lia. }
+  rewrite D. split; [reflexivity|]. split; [|lia]. split.
+  - rewrite bytes_ok_app, be_encode_ok, (bytes_ok_firstn 4 iv Hb). reflexivity.
+  - rewrite app_length, L4. lia.
+Qed.
+
+Lemma iv_after_ctr : forall k iv a, iv_ok iv -> iv_after k iv = Ok a ->
+  be_decode (skipn 4 a) = be_decode (skipn 4 iv) + Z.of_nat k /\ iv_ok a.
+Proof.
+  induction k as [|k IH]; intros iv a Hi H.
+  - cbn in H. injection H as <-. split; [lia|exact Hi].
+  - cbn [iv_after] in H. destruct (inc_iv iv) as [iv1|] eqn:E; cbn [bind] in H; [|discriminate].
+    destruct (inc_iv_ctr iv iv1 Hi E) as (C & Hi1 & _).
+    destruct (IH iv1 a Hi1 H) as [C2 Ha]. split; [lia|exact Ha].
+Qed.
+
+(* the nonces used within one key epoch are pairwise distinct (the 64-bit invocation counter never
+   wraps: at 2^64 - 1 _inc_iv_counter raises instead) *)
+Theorem iv_distinct iv k1 k2 a b :
+  iv_ok iv -> iv_after k1 iv = Ok a -> iv_after k2 iv = Ok b -> k1 <> k2 -> a <> b.
+Proof.
+  intros Hi H1 H2 Hk E. destruct (iv_after_ctr k1 iv a Hi H1) as [C1 _].
+  destruct (iv_after_ctr k2 iv b Hi H2) as [C2 _]. subst b. lia.
+Qed.
+
+(* each AEAD packet is encrypted under the current IV and the IV is then advanced by inc_iv *)
+Theorem aead_send_iv P s k iv data rnd w s' :
+  p_mode s = Aead k iv -> data <> [] -> send_message P s data rnd = Ok (w, s') ->
+  exists iv', inc_iv iv = Ok iv' /\ p_mode s' = Aead k iv'.
+Proof.
+  intros Em Hne H. destruct (send_message_inv P s data rnd w s' Hne H) as (packet & m' & _ & He & _ & ->).
+  unfold encrypt_packet in He. rewrite Em in He.
+  destruct (inc_iv iv) as [iv'|]; cbn [bind] in He; [|discriminate]. injection He as _ <-.
+  exists iv'. auto.
+Qed.
